@@ -960,18 +960,19 @@ package calendar
 //@   = !dayBefore(l.solar, jqs(l, k)) && dayBefore(l.solar, jqs(l, k+1))
 //@ lemma prevIdxInForce(l *Lunar) [C13]
 //@   reveal latestNotAfter
-//@   requires l != nil && 2 <= l.solar.year
+//@   requires l != nil
 //@   ensures all(0, 29, func(k int) bool { return termInForce(l, k) == (prevIdx(l) == k) }) && (!dayBefore(l.solar, jqs(l, 30))) == (prevIdx(l) == 30)
 //@   ensures 1 <= prevIdx(l) && prevIdx(l) <= 30
 
 //@ func (lunar *Lunar) GetPrevJieQiByWholeDay(wholeDay bool) *JieQi [C13]
-//@   requires wholeDay && 2 <= lunar.solar.year
+//@   requires wholeDay
 //@   ensures result.name == convertJieQi(JIE_QI_IN_USE[prevIdx(lunar)])
 //@   ensures result != nil && result.solar != nil
 //@   ensures all(0, 29, func(k int) bool { return implies(termInForce(lunar, k), sameSolar(result.solar, jqs(lunar, k)) && result.name == convertJieQi(JIE_QI_IN_USE[k])) }) &&
 //@           implies(!dayBefore(lunar.solar, jqs(lunar, 30)), sameSolar(result.solar, jqs(lunar, 30)) && result.name == convertJieQi(JIE_QI_IN_USE[30])) &&
 //@           all(0, 30, func(k int) bool { return implies(prevIdx(lunar) == k, sameSolar(result.solar, jqs(lunar, k))) }) &&
 //@           !dayBefore(lunar.solar, result.solar) && inYears(result.solar.year)
+//@   ensures all(0, 30, func(k int) bool { return implies(!dayBefore(lunar.solar, jqs(lunar, k)), !dayBefore(result.solar, jqs(lunar, k))) })
 //@   use prevIdxInForce(lunar)
 
 //@ func (lunar *Lunar) GetHou() string [C13]
